@@ -4,6 +4,7 @@ from __future__ import annotations
 
 import logging
 import os
+import re
 import shlex
 import signal
 import subprocess
@@ -195,9 +196,16 @@ def write_for_run(
                 spl = line.split()
                 for var in input_settings.keys():
                     if var in spl:
-                        line = line.replace(var, str(input_settings[var]))
-                        # remove found item from dict
-                        not_found.pop(var)
+                        # replace the variable where it stands as a word,
+                        # not inside longer words of the same line
+                        value = str(input_settings[var])
+                        line = re.sub(
+                            rf"(?<!\S){re.escape(var)}(?!\S)",
+                            lambda _match, value=value: value,
+                            line,
+                        )
+                        # a variable may be used on several lines
+                        not_found.pop(var, None)
 
                 writefile.write(line)
     # check if we found all keys
